@@ -10,6 +10,7 @@
 //	crash points   verifCrash("<name>")                         no-op unless VERIF_CRASH=<name>:<k>[:<delay ms>[:slow]]
 //	apply trace    verifApplyTrace(<recv>, <arg2>, <arg3>, <arg4>)   arguments copied from the anchor call itself
 //	entry hooks    verifRestoreTrace(<recv>, "<kind>", <expr>)  first statement of a function
+//	fdatasync      verifFdatasynced(<file>)                     after the real fdatasync of the WAL tail (C05)
 //
 // Output: <out>/<pkg>/<file>.go for every file with at least one insertion, <out>/<pkg>/verif_crash_gen.go
 // (the per-package verifCrash), <out>/node/verif_points_gen.go (found / missing lists, read by the harness) and
@@ -113,6 +114,11 @@ var points = []point{
 	{"wal/wal.go", "WAL.cut", "w.saveCrc", 1, "after", "wal.cut.crc"},
 	{"wal/wal.go", "WAL.cut", "os.Rename", 1, "before", "wal.cut.rename.before"},
 	{"wal/wal.go", "WAL.cut", "os.Rename", 1, "after", "wal.cut.rename.after"},
+	// the Ready path without overlap of committed and unstable entries persists after publishing (second call)
+	{"node/raft.go", "raftNode.processReady", "rc.persistRaftState", 2, "before", "ready.persist2.before"},
+	{"node/raft.go", "raftNode.processReady", "rc.persistRaftState", 2, "after", "ready.persist2.after"},
+	// C05: the offset up to which the tail segment has really been fdatasync'ed (hook in harness/overlay/wal)
+	{"wal/wal.go", "WAL.sync", "fileutil.Fdatasync", 1, "after", "trace:fdatasync"},
 	// trace hooks of protocol lin (C04)
 	{"node/node.go", "KVNode.applyEntry", "nd.sm.ApplyRaftRequest", 1, "before", "trace:apply"},
 	{"node/node.go", "KVNode.RestoreFromSnapshot", "", 0, "entry", "trace:restore"},
@@ -380,6 +386,12 @@ func main() {
 					}
 					text = fmt.Sprintf("verifApplyTrace(%s, %s, %s, %s)", recv, exprString(fset, c.call.Args[2]),
 						exprString(fset, c.call.Args[3]), exprString(fset, c.call.Args[4]))
+				} else if p.Name == "trace:fdatasync" {
+					if len(c.call.Args) != 1 {
+						miss(p, "anchor call does not have one argument")
+						continue
+					}
+					text = fmt.Sprintf("verifFdatasynced(%s)", exprString(fset, c.call.Args[0]))
 				} else {
 					text = fmt.Sprintf("verifCrash(%q)", p.Name)
 					needCrash = true
